@@ -571,6 +571,12 @@ def generate(prop, tier, seed, genfn=None, first=1):
     scens = g(tier, rng)
     if prop in ('C01', 'C02', 'C03', 'C04') and genfn is None and not props.PROPS[prop].get('no_relay'):
         scens = scens + relay_variants(scens, tier, rng, every=4 if prop != 'C04' else 12)
+    if prop in ('C07', 'C14') and (genfn is None or genfn.__name__ in ('c07', 'c14')):
+        # cancellations, deadlines and the stepped histories through the README's deployment as well
+        # (not the handlers that never receive: behind the demultiplexer the unread envelopes that identify the known finding
+        # D23 are not where the harness can count them)
+        scens = scens + relay_variants([x for x in scens if not (x.get('manual') or x.get('cap') or x.get('ncli') or '/idle ' in x.get('tag', ''))],
+                                       tier, rng, every=6)
     if prop in ('C01', 'C02', 'C03', 'C05', 'C07', 'C11') and (genfn is None or genfn.__name__ == prop.lower()):
         base = [s for s in scens if not s.get('topo')]
         scens = scens + two_conn_variants(base, tier, rng)
